@@ -98,11 +98,12 @@ impl Model for TwinModel {
             let cls = if so_c.outcome.ok { err_class(&o_n.err) } else { err_class(&so_c.outcome.err) };
             // the engine took the reverse path when the cw20 run executed two vAMM swaps (close leg + open leg)
             let reversal = reversal || so_c.swaps.len() >= 2;
-            // the error text only helps to tell causes apart; a refusal whose text the harness does not know ("other")
-            // in the situation of a listed finding is that finding
-            let (cls, refine) = if so_c.outcome.ok && kind == "open" && reversal && (cls == "sent-funds" || cls == "other") {
+            // the vault was short: the cw20 run had to draw on the insurance fund to pay the trader out
+            let (ifa, enga) = (ctx.cw.ifund.to_string(), ctx.cw.engine.to_string());
+            let vault_short = so_c.xfers.iter().any(|x| x.from == ifa && x.to == enga);
+            let (cls, refine) = if so_c.outcome.ok && kind == "open" && reversal && cls == "sent-funds" {
                 ("sent-funds".to_string(), "reversal-native-demands-more-than-cw20-pulls")
-            } else if so_c.outcome.ok && kind == "close" && fees && (cls == "transfer-failure" || cls == "other") {
+            } else if so_c.outcome.ok && kind == "close" && fees && vault_short && cls == "transfer-failure" {
                 ("transfer-failure".to_string(), "fees-taken-from-short-vault")
             } else {
                 (cls, "unclassified")
